@@ -10,11 +10,14 @@ Open Scope nat_scope.
 
 (* ---- what the model relies on in the source, re-read on every run ---- *)
 
-(* weighted_quantiles keeps one split per part boundary (no `dedup`), and the
-   part id of a point is `(Ok(i) | Err(i)) = split_positions.binary_search(&index)` *)
+(* weighted_quantiles keeps one split per part boundary (no `dedup`) and
+   searches with coupe's never-Equal comparator; the part id of a point is
+   `(Ok(i) | Err(i)) = split_positions.binary_search(&index)`; `P::avg` for
+   u64 is `(a & b) + (a ^ b) / 2`; ZCurve's second `par_chunks` is guarded *)
 Theorem C09_source_shape :
   hilbert_splits_dedup = false /\ hilbert_part_is_binary_search_of_index = true
-  /\ zcurve_chunk_guard = true.
+  /\ quantiles_search_by_partial_cmp = true /\ partial_cmp_is_less_or_greater = true
+  /\ average_u64_is_and_plus_half_xor = true /\ zcurve_chunk_guard = true.
 Proof. repeat split; exact eq_refl. Qed.
 
 (* the implementation's entry points: the models at the constants of the current source *)
@@ -71,6 +74,15 @@ Theorem C09_hilbert_3d : forall order fuel idx ws k p0 p,
 Proof. exact (hilbert_partition_monotone _ _). Qed.
 Print Assumptions C09_hilbert_2d.
 Print Assumptions C09_hilbert_3d.
+
+(* inside the contract no index of the quantile search is out of range: the
+   model returns, runs out of fuel (termination is NOT proved), or rejects the order *)
+Theorem C09_hilbert_no_panic : forall tol maxo order fuel idx ws k p0,
+  length idx = length p0 -> 1 <= k ->
+  no_panic (hilbert_partition tol maxo order fuel idx ws k p0)
+  \/ hilbert_partition tol maxo order fuel idx ws k p0 = Err (InvalidOrder maxo order).
+Proof. exact hilbert_partition_no_panic. Qed.
+Print Assumptions C09_hilbert_no_panic.
 
 (* the checker used on the implementation's outputs decides the property *)
 Theorem C09_check_monotone_ok : forall idx parts,
